@@ -113,6 +113,7 @@ type Cfg struct {
 	ParseLimit                  uint64
 	Lang                        int
 	Seed                        uint64 // 0 = unseeded
+	SeedLen                     int    // length of the Seed bytes handed to Init (0 = the usual 16)
 }
 
 func (c Cfg) String() string {
@@ -147,6 +148,9 @@ func (c Cfg) String() string {
 	if c.Seed != 0 {
 		fl = append(fl, fmt.Sprintf("seed=%d", c.Seed))
 	}
+	if c.SeedLen != 0 {
+		fl = append(fl, fmt.Sprintf("seedlen=%d", c.SeedLen))
+	}
 	return "{" + strings.Join(fl, ",") + "}"
 }
 
@@ -164,7 +168,16 @@ func SeedBytes(seed uint64) []byte {
 func (c Cfg) NewVM() *ds.Context {
 	vm := &ds.Context{}
 	if c.Seed != 0 {
-		vm.Seed = SeedBytes(c.Seed)
+		b := SeedBytes(c.Seed)
+		if c.SeedLen > 0 {
+			// hosts seed with whatever bytes they have (a uint64, a hash, ...): any non-nil Seed
+			// makes the context a seeded one
+			for len(b) < c.SeedLen {
+				b = append(b, b...)
+			}
+			b = b[:c.SeedLen]
+		}
+		vm.Seed = b
 	}
 	vm.Init()
 	c.Apply(vm)
